@@ -15,6 +15,7 @@ package main
 
 import (
 	"bytes"
+	"encoding/json"
 	"fmt"
 	"net/http"
 	"net/http/httptest"
@@ -22,6 +23,7 @@ import (
 	"path/filepath"
 	"strings"
 	"sync"
+	"sync/atomic"
 
 	"github.com/jech/galene/group"
 	"github.com/jech/galene/webserver"
@@ -116,6 +118,173 @@ func raceRun(e *eng, writers, rounds int) string {
 				got = got[:200]
 			}
 			return "bad:after-round-" + fmt.Sprint(round) + "-the-file-holds-" + got
+		}
+	}
+	return "ok"
+}
+
+// `race2 <rounds>`: unconditional writers (passwords, keys) against conditional ones on the SAME file
+// (C17: an update never alters what it does not address; C18: no acknowledged update is silently lost,
+// for interleavings of concurrent PUTs on groups, users, passwords and keys).  Per round, concurrently:
+// P sets usrBob's password (PUT .password, no precondition), K replaces the key set (PUT .keys), A and D
+// update usrAna's permissions resp. the description with GET + If-Match, retrying on 412 until they
+// are acknowledged.  After the round every acknowledged value must be in the file.
+func race2Run(e *eng, rounds int) string {
+	dir, err := scratchDir("race2")
+	if err != nil {
+		return "err:" + esc(err.Error())
+	}
+	defer os.RemoveAll(dir)
+	gdir, ddir := filepath.Join(dir, "groups"), filepath.Join(dir, "data")
+	os.MkdirAll(gdir, 0700)
+	os.MkdirAll(ddir, 0700)
+	fx := &eng{secrets: map[string]bool{}, markers: map[string]bool{}, ids: map[string]bool{}}
+	os.WriteFile(filepath.Join(ddir, "config.json"), fx.confJSON(true, "root:p.r:admin"), 0600)
+	os.WriteFile(filepath.Join(gdir, "grpR.json"), fx.groupJSON(raceGroup), 0600)
+	group.Directory, group.DataDirectory = gdir, ddir
+	defer func() { group.Directory, group.DataDirectory = e.groups, e.data }()
+
+	do := func(method, path, im string, ctype string, body []byte) *http.Response {
+		r := httptest.NewRequest(method, "http://galene.example"+api+"/.groups/grpR"+path, bytes.NewReader(body))
+		r.SetBasicAuth("root", plaintext("r"))
+		if body != nil {
+			r.Header.Set("Content-Type", ctype)
+		}
+		if im != "" {
+			r.Header.Set("If-Match", im)
+		}
+		rec := httptest.NewRecorder()
+		func() {
+			defer func() { recover() }()
+			webserver.VerifApiHandler(rec, r)
+		}()
+		return rec.Result()
+	}
+	cond := func(path string, body []byte) bool {
+		for try := 0; try < 200; try++ {
+			tag := do("GET", path, "", "", nil).Header.Get("Etag")
+			if tag == "" {
+				return false
+			}
+			st := do("PUT", path, tag, "application/json", body).StatusCode
+			if st/100 == 2 {
+				return true
+			}
+			if st != http.StatusPreconditionFailed {
+				return false
+			}
+		}
+		return false
+	}
+	type rawDesc struct {
+		Description string `json:"description"`
+		Users       map[string]struct {
+			Password    json.RawMessage `json:"password"`
+			Permissions json.RawMessage `json:"permissions"`
+		} `json:"users"`
+		AuthKeys []map[string]any `json:"authKeys"`
+	}
+	seen := map[string]int{}
+	for round := 0; round < rounds; round++ {
+		n := 400 + round // large values: reading and rewriting the file takes long enough for the others to get in between
+		pw := fmt.Sprintf("r2pw%d", round)
+		perm := "[" + strings.Repeat("message+", n-1) + "message]"
+		var okP, okK, okA, okD bool
+		var wg sync.WaitGroup
+		start := make(chan struct{})
+		run := func(f func()) {
+			wg.Add(1)
+			go func() {
+				defer wg.Done()
+				<-start
+				f()
+			}()
+		}
+		run(func() {
+			b, _ := json.Marshal(map[string]any{"type": "plain", "key": pw})
+			okP = do("PUT", "/.users/usrBob/.password", "", "application/json", b).StatusCode/100 == 2
+		})
+		nkeys := 1 + round%3
+		run(func() {
+			var names []string
+			for i := 0; i < nkeys; i++ {
+				names = append(names, "K1")
+			}
+			okK = do("PUT", "/.keys", "", "application/jwk-set+json", fx.bodyBytes("keys:"+strings.Join(names, ","))).StatusCode/100 == 2
+		})
+		run(func() { okA = cond("/.users/usrAna", fx.bodyBytes("user:"+perm)) })
+		run(func() { okD = cond("", fx.bodyBytes(fmt.Sprintf("desc:%d:0", n))) })
+		// readers: a tag identifies one version, so the same tag must always come with the same content
+		var stop atomic.Bool
+		var rwg sync.WaitGroup
+		var torn string
+		var tmu sync.Mutex
+		for k := 0; k < 2; k++ {
+			rwg.Add(1)
+			go func() {
+				defer rwg.Done()
+				<-start
+				for !stop.Load() {
+					resp := do("GET", "", "", "", nil)
+					tag := resp.Header.Get("Etag")
+					var v struct {
+						Description string `json:"description"`
+					}
+					if resp.StatusCode != 200 || tag == "" || json.NewDecoder(resp.Body).Decode(&v) != nil {
+						continue
+					}
+					tmu.Lock()
+					if l, ok := seen[tag]; ok && l != len(v.Description) {
+						torn = fmt.Sprintf("tag-served-with-two-contents(description-lengths-%d-and-%d)", l, len(v.Description))
+					}
+					seen[tag] = len(v.Description)
+					tmu.Unlock()
+				}
+			}()
+		}
+		close(start)
+		wg.Wait()
+		stop.Store(true)
+		rwg.Wait()
+		if torn != "" {
+			return fmt.Sprintf("bad:round-%d-%s", round, torn)
+		}
+		if !okP || !okK || !okA || !okD {
+			return fmt.Sprintf("env:round-%d-not-all-acknowledged-%v-%v-%v-%v", round, okP, okK, okA, okD)
+		}
+		b, err := os.ReadFile(filepath.Join(gdir, "grpR.json"))
+		if err != nil {
+			return "bad:file-unreadable-after-round-" + fmt.Sprint(round)
+		}
+		var d rawDesc
+		if json.Unmarshal(b, &d) != nil {
+			return "bad:file-not-json-after-round-" + fmt.Sprint(round)
+		}
+		var lost []string
+		var gotPw struct {
+			Type string `json:"type"`
+			Key  string `json:"key"`
+		}
+		json.Unmarshal(d.Users["usrBob"].Password, &gotPw)
+		if gotPw.Key != pw {
+			lost = append(lost, "password-of-usrBob")
+		}
+		var gotPerm []string
+		json.Unmarshal(d.Users["usrAna"].Permissions, &gotPerm)
+		if len(gotPerm) != n {
+			lost = append(lost, fmt.Sprintf("permissions-of-usrAna(%d-not-%d)", len(gotPerm), n))
+		}
+		if len(d.Description) != n {
+			lost = append(lost, fmt.Sprintf("description(%d-not-%d)", len(d.Description), n))
+		}
+		if len(d.AuthKeys) != nkeys {
+			lost = append(lost, fmt.Sprintf("keys(%d-not-%d)", len(d.AuthKeys), nkeys))
+		}
+		if len(d.Users["usrAna"].Password) == 0 {
+			lost = append(lost, "stored-password-of-usrAna")
+		}
+		if len(lost) > 0 {
+			return fmt.Sprintf("bad:round-%d-acknowledged-updates-lost:%s", round, strings.Join(lost, ","))
 		}
 	}
 	return "ok"
